@@ -8,7 +8,7 @@
     every mutating operation of the correspondence run.  Size and node counts are functions of the structure
     in the model ([t_size], [t_leaves], [t_inner]) and are compared with the real tree's stats per step. *)
 From Coq Require Import List Bool Arith.
-From TLXV Require Import Common.Order C01.Model C01.Defs C01.Spec C01.BulkProofs C01.InsertProofs
+From TLXV Require Import Common.Order C01.Model C01.Defs C01.Spec C01.BulkProofs C01.BulkDedup C01.InsertProofs
      C01.EraseElems C01.EraseInv C01.History.
 Import ListNotations.
 
@@ -67,13 +67,25 @@ Theorem C02_erase_iter_inv : forall (K V : Type) (ltb : K -> K -> bool) (key : V
 Proof. exact (@erase_iter_inv). Qed.
 Print Assumptions C02_erase_iter_inv.
 
-(** ... by bulk_load of a sorted range (every length; minimum fill of every node). *)
+(** ... by bulk_load of EVERY sorted range, equal keys allowed in all containers (every length; minimum fill of
+    every node; unique containers keep the first entry of each run). *)
 Theorem C02_bulk_load_inv : forall (K V : Type) (ltb : K -> K -> bool) (key : V -> K) (dk : K)
     (leafmax innermax : nat) (dup : bool), SWO ltb -> 4 <= leafmax -> 4 <= innermax ->
-  forall l : list V, keys_sorted ltb key dup l ->
-    Inv ltb key dk leafmax innermax dup (bulk_load key dk leafmax innermax l).
+  forall l : list V, sortedk ltb (map key l) = true ->
+    Inv ltb key dk leafmax innermax dup (bulk_load ltb key dk leafmax innermax dup l).
 Proof. exact (@bulk_load_inv). Qed.
 Print Assumptions C02_bulk_load_inv.
+
+(** The bulk_load shipped before b2f41a5 broke the invariant of set / map on a sorted range with equal keys. *)
+Theorem C02_bulk_load_shipped_refuted :
+  exists l : list nat,
+    sortedk Nat.ltb (map (fun x => x) l) = true
+    /\ inv_b Nat.ltb (fun x => x) 0 4 4 false (bulk_load_shipped (fun x => x) 0 4 4 l) = false
+    /\ inv_b Nat.ltb (fun x => x) 0 4 4 false (bulk_load Nat.ltb (fun x => x) 0 4 4 false l) = true.
+Proof.
+  destruct bulk_load_shipped_refuted as (l & H1 & H2 & _ & _ & H5). exists l. exact (conj H1 (conj H2 H5)).
+Qed.
+Print Assumptions C02_bulk_load_shipped_refuted.
 
 (** After every step of every history (all container variables, all operations incl. copy, assignment, swap,
     clear, bulk load): the invariant holds for every variable, and node allocations minus node frees equal
@@ -83,7 +95,7 @@ Theorem C02_history_inv_alloc : forall (K V : Type) (ltb : K -> K -> bool) (key 
     (leafmax innermax : nat) (dup binsearch : bool) (veqb vltb : V -> V -> bool),
   SWO ltb -> 4 <= leafmax -> 4 <= innermax ->
   forall (ops : list (@op K V)) (st : list (@tree K V)),
-    Forall (Inv ltb key dk leafmax innermax dup) st -> hist_wf ltb key dup (length st) ops ->
+    Forall (Inv ltb key dk leafmax innermax dup) st -> hist_wf ltb key (length st) ops ->
     let '(st', rs) := run ltb key dk leafmax innermax dup binsearch veqb vltb st ops in
     Forall (Inv ltb key dk leafmax innermax dup) st'
     /\ Forall (fun s => s_bad s = false /\ Forall (Inv ltb key dk leafmax innermax dup) (s_state s)) rs
@@ -100,7 +112,7 @@ Theorem C02_alloc_balance_empty_to_empty : forall (K V : Type) (ltb : K -> K -> 
     (leafmax innermax : nat) (dup binsearch : bool) (veqb vltb : V -> V -> bool),
   SWO ltb -> 4 <= leafmax -> 4 <= innermax ->
   forall (ops : list (@op K V)) (st : list (@tree K V)),
-    Forall (fun t => t = None) st -> hist_wf ltb key dup (length st) ops ->
+    Forall (fun t => t = None) st -> hist_wf ltb key (length st) ops ->
     let '(st', rs) := run ltb key dk leafmax innermax dup binsearch veqb vltb st ops in
     sum_allocs rs = total_nodes st' + sum_frees rs
     /\ (Forall (fun t => t = None) st' -> sum_allocs rs = sum_frees rs).
